@@ -203,7 +203,26 @@ fn build_shared(seed: u64, run: u64, thorough: bool, st: &mut Stats) -> Option<(
 fn build_shared_inner(seed: u64, run: u64, thorough: bool, st: &mut Stats) -> Option<(Arc<Shared>, String)> {
     let mut ctx = RunCtx { prop: "C18", seed, run, thorough, spec: Spec::default(), st, hints: Default::default(), explicit: Vec::new() };
     let mut w = Rng::new(derive(seed, &[tag("C18-mt"), run, tag("workload")]));
-    let sc = gen_scenario(&mut ctx, &mut w, &ScenCfg { class: SizeClass::Tiny, heavy: false, raw: true, exact_target: false, max_ops: 12 });
+    let mut sc = gen_scenario(&mut ctx, &mut w, &ScenCfg { class: SizeClass::Tiny, heavy: false, raw: true, exact_target: false, max_ops: 12 });
+    // storms: every caller starts with the same kind of call, so that several callers are inside the
+    // same library code at once.  0: none, 1: fresh labels (cold label cache), 2: proofs of
+    // different instances - other witness and public-input values - on the shared prover
+    let storm_kind = w.below(3);
+    if storm_kind == 2 {
+        // the instances must differ in their public inputs: make sure the circuit has some
+        let mut p = (*sc.prog).clone();
+        for _ in 0..1 + w.usize(3) {
+            p.ops.push(crate::program::Op::Public(crate::program::Kind::Any));
+        }
+        if let Some(c) = crate::program::count_constraints(&p) {
+            let prog = Arc::new(p);
+            let mut tr = Rng::new(w.u64());
+            sc.tape = crate::program::honest_tape(&prog, &mut tr);
+            sc.prog = prog;
+            sc.constraints = c;
+            sc.degree = sc.degree.max(deploy::min_degree_for(c));
+        }
+    }
     let canon = EnvCfg::canonical();
     let pp = deploy::pp_with_degree(sc.degree);
     let (prover, verifier) = deploy::compile(&pp, &sc.label, &sc.prog, Route::WithCircuit, &canon).ok()?;
@@ -256,16 +275,15 @@ fn build_shared_inner(seed: u64, run: u64, thorough: bool, st: &mut Stats) -> Op
         .collect();
     let mut sh = Shared { tapes, second, prover, verifier, pp, prog: sc.prog.clone(), tape: sc.tape.clone(), msgs, plans: Vec::new(), label: sc.label.clone(), run };
     let mut plans = Vec::new();
-    // label storm (half of the scenarios): every caller starts with a call under a label the
-    // process has never seen, most of them the same one, so that the cold path of the label
-    // cache is entered by several callers at once
-    let storm = w.chance(1, 2);
     for c in 0..callers {
         let n_calls = 1 + w.usize(3);
         let mut plan = Vec::new();
         for j in 0..n_calls {
-            let call = if storm && j == 0 {
+            let call = if storm_kind == 1 && j == 0 {
                 Call::FreshKind([0u8, 0, 1, 2][w.usize(4)])
+            } else if storm_kind == 2 && j == 0 {
+                // caller c proves instance c (0 = the deployment's own tape, 1.. = the variants)
+                Call::Prove(sc.rng_seed ^ w.below(2), c % 4)
             } else {
                 match w.below(10) {
                 0..=2 => Call::Prove(sc.rng_seed ^ w.below(3), w.usize(4)),
